@@ -77,15 +77,17 @@ Example c11_retrieval_nonvacuous :
 Proof.
   cbv zeta. split; [|split].
   - unfold wf_inputs, ex_inputs, ex_r1, ex_r2.
-    repeat (constructor; [split; [repeat constructor; cbn [map fst In]; intuition discriminate | repeat constructor; unfold i32; cbn [snd]; lia]|]).
-    constructor.
+    repeat (apply Forall_cons; [split; [repeat constructor; cbn [map fst In]; intuition discriminate | repeat (apply Forall_cons; [unfold i32; cbn [snd]; lia|]); apply Forall_nil]|]).
+    apply Forall_nil.
   - unfold valid_encs. cbv zeta. split; [|split; [|split]].
     + intros e [<-|[<-|[]]]; cbn [fst snd]; (split; [reflexivity|]); (split; [repeat constructor; lia|]).
       * intros id [<-|[<-|[]]]; (split; [lia | vm_compute; reflexivity]).
       * intros id [<-|[]]; (split; [lia | vm_compute; reflexivity]).
     + cbn. repeat constructor; cbn; intuition lia.
-    + intros id Hid. vm_compute in Hid. cbn. destruct Hid as [H1 H2]. 
-      assert (id = 0 \/ id = 1 \/ id = 2) as [->|[->| ->]] by (destruct id as [|p|p]; [lia | | lia]; destruct p as [p|p|]; [destruct p; lia | destruct p; lia | lia]); tauto.
+    + intros id Hid.
+      assert (Hl : Z.of_nat (length (b_sets (fst (add_all (builder_new false) ex_inputs)))) = 3) by (vm_compute; reflexivity).
+      rewrite Hl in Hid. assert (H : id = 0 \/ id = 1 \/ id = 2) by lia.
+      destruct H as [->|[->| ->]]; cbn; tauto.
     + vm_compute. discriminate.
   - vm_compute. discriminate.
 Qed.
